@@ -25,8 +25,155 @@ def _concurrent_senders(run):
             break
 
 
+class _SendRace:
+    """`n` application threads block in Application.send_request towards one ready peer; a peer thread answers every request
+    the moment it is on the wire (optionally the last one twice: a duplicated answer).  The node model hands an answer to
+    the waiting sender in one atomic step (OAnswerTo); this exploration runs the real send_request / receive_answer /
+    Node.send_message under every interleaving of their source lines with <= max_pre pre-emptions and demands what the
+    property states: every blocked sender returns exactly the answer bearing its identifiers, nothing reaches the
+    unexpected-answer handler except the duplicate, no thread dies."""
+    def __init__(self, n, dup):
+        import nodesim as NS
+        from vsim import Sim
+        self.NS, self.n, self.dup = NS, n, dup
+        self.sim = sim = Sim(seed=1, t0=NS.T0)
+        sim.script_random([77, 12345])
+        self.node = node = sim.node_mod.Node("srv.example.net", "example.net", ip_addresses=["10.0.0.1"], tcp_port=3868)
+        self.unexpected = []
+        outer = self
+
+        class App(sim.app_mod.Application):
+            def handle_request(self, m):
+                pass
+
+            def handle_answer(self, m):
+                outer.unexpected.append((m.header.hop_by_hop_identifier, m.header.end_to_end_identifier))
+        self.app = app = App(4, is_auth_application=True)
+        peer = node.add_peer("aaa://cli0.example.net", "example.net")
+        node.add_application(app, [peer])
+        node.start()
+        sim.run()
+        sim.script_random([1000])
+        self.remote = r = sim.connect_in()
+        sim.run()
+        r.feed(NS.build_message(dict(kind="cer", host="cli0.example.net", hbh=1, e2e=1)))
+        sim.run()
+        r.take_messages()
+
+    def launch(self, chooser):
+        sim, NS = self.sim, self.NS
+        self.outcomes, self.wire = {}, []
+        state = {"prev": None}
+
+        def ch(runnable):
+            pick = chooser(list(runnable), state["prev"])
+            state["prev"] = pick
+            return pick
+        A = sim.app_mod.Application
+        sim.line_mode([A.send_request, A.receive_answer, sim.node_mod.Node.send_message], ch)
+        from diameter.message.commands import CreditControlRequest
+
+        def sender(t):
+            m = CreditControlRequest()
+            m.session_id = "s;%d" % t
+            m.origin_host, m.origin_realm, m.destination_realm = b"srv.example.net", b"example.net", b"example.net"
+            m.auth_application_id, m.cc_request_type, m.cc_request_number = 4, 1, 0
+            m.header.end_to_end_identifier = 0x7000 + t
+            try:
+                a = self.app.send_request(m, timeout=5)
+                self.outcomes[t] = ["answer", m.header.hop_by_hop_identifier, a.header.hop_by_hop_identifier,
+                                    a.header.end_to_end_identifier]
+            except Exception as e:   # noqa
+                self.outcomes[t] = [type(e).__name__, m.header.hop_by_hop_identifier]
+
+        def peer():
+            served = 0
+            while served < self.n:
+                sim._block(lambda: len(self.remote.sent) >= 20, 20.0, "peer waits for a request")
+                buf, got = self.remote.sent, []
+                while len(buf) >= 20:       # frames and identifiers from the wire, not through the library's decoder
+                    ln = int.from_bytes(buf[1:4], "big")
+                    if ln < 20 or len(buf) < ln:
+                        break
+                    got.append((buf[4] & 0x80, int.from_bytes(buf[12:16], "big"), int.from_bytes(buf[16:20], "big")))
+                    del buf[:ln]
+                if not got:
+                    break
+                for is_req, hbh, e2e in got:
+                    if is_req:
+                        self.wire.append((hbh, e2e))
+                        served += 1
+                        ans = NS.build_message(dict(kind="ans", hbh=hbh, e2e=e2e, host="cli0.example.net"))
+                        self.remote.feed(ans)
+                        if self.dup and served == self.n:
+                            self.remote.feed(ans)
+        sim.spawn(peer, name="P")
+        for t in range(self.n):
+            sim.spawn(sender, t, name="S%d" % t)
+        sim.run()
+        sim.line_mode(None)
+        sim.advance(6)
+        sim.run()
+
+    def finish(self):
+        o = dict(outcomes={str(k): v for k, v in self.outcomes.items()}, wire=list(self.wire),
+                 unexpected=list(self.unexpected), deaths=list(self.sim.thread_deaths))
+        self.sim.shutdown()
+        return o
+
+
+def _judge_send(n, dup):
+    def judge(o):
+        oc = o["outcomes"]
+        hb = [h for h, _e in o["wire"]]
+        ok = (len(oc) == n and len(o["wire"]) == n and len(set(hb)) == n and 0 not in hb and not o["deaths"]
+              and all(v[0] == "answer" and v[1] == v[2] and v[3] == 0x7000 + int(t) and (v[1], v[3]) in o["wire"]
+                      for t, v in oc.items()))
+        # a duplicated answer goes to nobody (the sender already has its answer) or to the unexpected-answer handler of the
+        # sending application; without a duplicate that handler must stay silent
+        ok = ok and (set(o["unexpected"]) <= set(o["wire"][-1:]) and len(o["unexpected"]) <= 1 if dup else not o["unexpected"])
+        if ok:
+            return None
+        return ("answer-to-sender", {"outcomes": oc, "requests_on_the_wire": [[hex(a), hex(b)] for a, b in o["wire"]],
+                                     "handle_answer": [[hex(a), hex(b)] for a, b in o["unexpected"]], "deaths": o["deaths"]},
+                "every blocked sender returns the answer bearing its own identifiers; handle_answer is not called for an "
+                "answer somebody waits for",
+                "the answer bearing a blocked sender's identifiers arrived while it was waiting, yet send_request did not "
+                "return it (timed out / wrong answer) or it went to the unexpected-answer handler")
+    return judge
+
+
+def sender_answer_race(run):
+    import racelib
+    total = 0
+    plans = [(1, False, 2, 400), (2, False, 2, 1200), (1, True, 2, 400), (3, False, 1, 1500)] if run.tier == "thorough" else \
+            [(1, False, 2, 120), (2, False, 1, 200), (1, True, 1, 80)]
+    for n, dup, pre, cap in plans:
+        if run.violations:
+            break
+        total += racelib.explore(run, lambda: _SendRace(n, dup), _judge_send(n, dup),
+                                 "blocked senders against a peer that answers at once", pre, cap,
+                                 extra_case={"senders": n, "duplicate_answer": dup})
+    run.extra["sender_answer_race_schedules"] = total
+
+
 def check(run):
+    orig_obligations = run.obligations
+
+    def obligations_then_race(files):
+        out = orig_obligations(files)
+        sender_answer_race(run)
+        return out
+    run.obligations = obligations_then_race
     return nodecheck.run(run, "C10", FILES, PROFILE, W, N_QUICK, N_THOROUGH, LENGTH, themes=THEMES, on_broken=_concurrent_senders)
 
 
-replay = nodecheck.replay_generic
+def replay(r):
+    c = r.get("case", {})
+    if str(c.get("scenario", "")).startswith("blocked senders"):
+        import racelib
+        n, dup = int(c["senders"]), bool(c["duplicate_answer"])
+        o = racelib.replay_schedule(lambda: _SendRace(n, dup), c["schedule"])
+        print("replay: outcomes", o["outcomes"], "handle_answer", o["unexpected"], "deaths", o["deaths"])
+        return _judge_send(n, dup)(o) is None
+    return nodecheck.replay_generic(r)
